@@ -32,12 +32,14 @@ PROP = dict(
     bin="c13",
     run_targets=["Run/RunC13.vo"],
     prop_targets=["Properties/C13.vo"],
-    cases=dict(quick=1500, thorough=12000),
+    cases=dict(quick=6000, thorough=40000),
     level="proof",
-    rule="cases drawn from 9 families (small alphabet, random, ties, one dominant, perfect partition exists, zeros, "
-         "long+loose tolerance, tiny, large values) x 8 tolerance choices, plus a malformed stream (partition length "
-         "shorter/longer/empty); distinct = distinct (weights, tolerance bits, partition length); non-trivial = at "
-         "least 3 weights and matching lengths",
+    rule="cases drawn from 11 families (random element of the exhaustive space of vectors over {0..4} up to length 6, "
+         "two-largest-balance-the-rest, random, ties, one dominant, perfect partition exists, zeros, long+loose tolerance, tiny, "
+         "large values) x 10 tolerance choices (0, exact d/total, fixed, random), plus a malformed stream (partition length "
+         "shorter/longer/empty); thorough tier: the first 19530 cases enumerate EVERY vector over {0..4} of length 1..6 at "
+         "tolerance 0; distinct = distinct (weights, tolerance bits, partition length); non-trivial = at least 3 weights and "
+         "matching lengths",
     class_names={0: "Ok", 1: "NotFound", 2: "other error", 3: "panic", 4: "hang"},
     trusted_base=[
         "axioms: none (every theorem of Properties/C13.v is closed under the global context)",
